@@ -54,6 +54,9 @@ func TestC16(t *testing.T) {
 		case "emptyValue":
 			pcfg["cookieValue"] = ""
 		}
+		if p.PreTest {
+			pcfg["preTestServe"] = true
+		}
 		if p.TLS == "provider" {
 			cp, kp, _ := vp.GenCert()
 			os.WriteFile(filepath.Join(d, "cert.pem"), cp, 0o600)
